@@ -42,7 +42,7 @@ def rel_obj(src):
 
 def gen(variant):
     v = VARIANTS[variant]
-    bdir = os.path.join(VERIF, "build", variant)
+    bdir = os.path.join(os.environ.get("VERIF_BUILD", os.path.join(VERIF, "build")), variant)
     os.makedirs(bdir, exist_ok=True)
     tl = os.path.join(REPO, "lib/texellib")
     ul = os.path.join(REPO, "lib/texelutillib")
